@@ -13,6 +13,10 @@ Definition idx_get (s : str) (i : N) : outcome N :=
 (* usize `a - b` (debug-build semantics: underflow panics) *)
 Definition sub_chk (a b : N) : outcome N := if a <? b then Panic else Ret (a - b).
 
+(* usize `a + b` where an operand comes from the caller (any value up to usize::MAX): debug-build semantics, overflow panics.
+   (Additions on counters derived from lengths are translated to unbounded `+`: they cannot reach 2^64.) *)
+Definition add_chk (a b : N) : outcome N := if a + b <=? USIZE_MAX then Ret (a + b) else Panic.
+
 (* `&s[i..]`, `&s[..i]`, `&s[a..b]` *)
 Definition slice_from (s : str) (i : N) : outcome str :=
   if i <=? len s then Ret (skipn (N.to_nat i) s) else Panic.
